@@ -43,7 +43,8 @@ def get_core_features(feature_model: FeatureModel) -> list[Feature]:
     while features:
         feature = features.pop()
         for relation in feature.get_relations():
-            if relation.is_mandatory():
+            # All the children are required: mandatory, or [n..n] group with n children
+            if relation.is_mandatory() or relation.card_min == len(relation.children):
                 core_features.extend(relation.children)
                 features.extend(relation.children)
 
